@@ -60,6 +60,7 @@ def run(chk):
     r2_stateful_sequential(chk, repo)
     c11.single_producer(chk, repo, rule="C01.R3")
     c12.r5_continuity(chk, repo, rule="C01.R4")
+    r5_post_office(chk, repo)
 
 
 # ------------------------------------------------------------------------------------ R1
@@ -276,8 +277,124 @@ def r2_stateful_sequential(chk, repo):
     dcfg = cfg_of(di)
     chk.check(any(isinstance(n.stmt, ast.Raise) and ("self.parallel", True) in dcfg.guard_facts(n) for n in dcfg.stmt_nodes()), "C01.R2", di, None, "DownChunkingPlugin accepts parallel=True in a subclass", site_text="DownChunkingPlugin.__init__: rejects parallel")
 
+# ------------------------------------------------------------------------------------ R5
+POST = "strax/processors/post_office.py"
+
+
+def r5_post_office(chk, repo):
+    from ..dtable import run as drun
+    from ..pattern import find as pfind, pmatch
+    from ..rules import on_every_iteration
+    chk.describe("C01.R5", "the single-thread processor's post office delivers like the mailbox: messages are numbered from 0 in production order, a reader takes message <cursor> from the cache (searching all of it) or fetches it, acknowledges, yields, advances by one, and stops only when the topic is exhausted and the cursor is beyond the last message; every produced message reaches every spy")
+    R = "C01.R5"
+    rd = repo.func("PostOffice._read", POST)
+    cfg = cfg_of(rd)
+    TOPIC = rd.params[1]
+    loops = [n for n in rd.node.body if isinstance(n, ast.While) and isinstance(n.test, ast.Call) and call_name(n.test) == "self._message_may_come"]
+    chk.need(len(loops) == 1 and len(loops[0].test.args) == 2 and isinstance(loops[0].test.args[1], ast.Name), "C01.R5: read loop `while self._message_may_come(topic, <cursor>)` not found")
+    lp = loops[0]
+    CUR = lp.test.args[1].id
+    inits = [st for st in rd.node.body if isinstance(st, ast.Assign) and norm(st.targets[0]) == CUR]
+    reg = repo.func("PostOffice._register_topic", POST)
+    gi = repo.func("PostOffice.get_iter", POST)
+    p0 = [st for st in walk_body(reg.node) if isinstance(st, ast.Assign) and norm(st.targets[0]).startswith("self._last_msg_produced[")]
+    r0 = [st for st in walk_body(gi.node) if isinstance(st, ast.Assign) and norm(st.targets[0]).startswith("self._last_msg_read[")]
+    chk.check(len(inits) == 1 and norm(inits[0].value) == "0" and len(p0) == 1 and norm(p0[0].value) == "-1" and len(r0) == 1 and norm(r0[0].value) == "-1", R, rd, inits[0] if inits else None,
+              "numbering bases disagree: the cursor must start at 0 while `last produced` and `last read` start at -1 (first message is number 0)", site_text="PostOffice: cursor 0, last produced -1, last read -1")
+    incs = [st for st in walk_body(lp) if isinstance(st, ast.AugAssign) and norm(st.target) == CUR]
+    chk.check(len(incs) == 1 and isinstance(incs[0].op, ast.Add) and norm(incs[0].value) == "1" and on_every_iteration(cfg, lp, incs), R, rd, lp, "the cursor does not advance by exactly one on every round of the read loop", site_text="PostOffice._read: cursor += 1 per delivered message")
+    # cache lookup searches the whole cache for the cursor, else fetches
+    look = [st for st in lp.body if isinstance(st, ast.For) and norm(st.iter) == f"self._saved_mail[{TOPIC}]" and isinstance(st.target, ast.Tuple) and len(st.target.elts) == 2]
+    okl = False
+    RES = None
+    if len(look) == 1:
+        NUM, RES = norm(look[0].target.elts[0]), norm(look[0].target.elts[1])
+        hit = [x for x in look[0].body if isinstance(x, ast.If) and pmatch(f"{NUM} == {CUR}", x.test) is not None and len(x.body) == 1 and isinstance(x.body[0], ast.Break)]
+        fetch = [x for x in ast.walk(ast.Module(body=look[0].orelse, type_ignores=[])) if isinstance(x, ast.Assign) and norm(x.targets[0]) == RES and isinstance(x.value, ast.Call) and call_name(x.value) == "self._fetch_new" and norm(x.value.args[0]) == TOPIC]
+        okl = len(hit) == 1 and len(look[0].body) == 1 and len(fetch) == 1
+    chk.check(okl, R, rd, look[0] if look else lp, "the reader does not search the whole cache for message <cursor> and fetch a new message only when it is not there: with three readers at different paces the middle one would skip or repeat messages", site_text="PostOffice._read: for (n, msg) in saved: if n == cursor: break; else: fetch", site={"function": rd.qualname, "rule": "cache lookup by number"})
+    ys = [n for n in cfg.stmt_nodes() if isinstance(n.stmt, ast.Expr) and isinstance(n.stmt.value, ast.Yield)]
+    acks = [n for n in cfg.stmt_nodes() if not isinstance(n.stmt, COMPOUND) and node_calls(n, lambda c, nm: nm == "self._ack_reader_recieved" and len(c.args) == 3 and norm(c.args[2]) == CUR and norm(c.args[1]) == TOPIC)]
+    dom = cfg.dominators("n")
+    chk.check(len(ys) == 1 and len(acks) == 1 and acks[0] in dom[ys[0]] and on_every_iteration(cfg, lp, [y.stmt for y in ys]), R, rd, ys[0].stmt if ys else lp, "a message is not acknowledged (under its number) before it is yielded, once per round", site_text="PostOffice._read: ack(reader, topic, cursor) then yield")
+    if ys and RES:
+        r = reaching(rd)
+        yv = ys[0].stmt.value.value
+        src = set()
+        for x in ast.walk(yv):
+            if isinstance(x, ast.Name):
+                for d in r.defs_of(ys[0], x.id):
+                    if d[1] is not None:
+                        src.add(norm(d[1]))
+        chk.check(any(RES in t for t in src) or norm(yv) == RES, R, rd, ys[0].stmt, "what is yielded is not the message found / fetched for the cursor", site_text="PostOffice._read: yields the looked-up message")
+    for b in [n for n in cfg.stmt_nodes() if isinstance(n.stmt, (ast.Break, ast.Return)) and enclosing(n.stmt, (ast.While,)) is lp and enclosing(n.stmt, (ast.For,)) is None]:
+        h = enclosing(b.stmt, (ast.ExceptHandler,))
+        chk.check(h is not None and h.type is not None and "StopIteration" in norm(h.type), R, rd, b.stmt, "the read loop is left although the producer is not exhausted", site_text="PostOffice._read: loop left only on StopIteration of the producer")
+    # _message_may_come: decision table
+    mc = repo.func("PostOffice._message_may_come", POST)
+    T, M = mc.params[1], mc.params[2]
+    bad = []
+    for exhausted in (True, False):
+        for order in ("lt", "eq", "gt"):
+            def oracle(text, node, exhausted=exhausted, order=order):
+                if isinstance(node, ast.Compare) and len(node.ops) == 1:
+                    l, r_, op = norm(node.left), norm(node.comparators[0]), node.ops[0]
+                    if r_ == "self._exhausted_topics" and l == T:
+                        return exhausted if isinstance(op, ast.In) else (not exhausted) if isinstance(op, ast.NotIn) else None
+                    last = f"self._last_msg_produced[{T}]"
+                    if {l, r_} == {M, last}:
+                        o = order if l == M else {"lt": "gt", "gt": "lt", "eq": "eq"}[order]
+                        return {ast.Lt: o == "lt", ast.LtE: o in ("lt", "eq"), ast.Gt: o == "gt", ast.GtE: o in ("gt", "eq"), ast.Eq: o == "eq", ast.NotEq: o != "eq"}.get(type(op))
+                return None
+            try:
+                kind, val = drun(mc.node, oracle)
+            except AnalysisError as e:
+                kind, val = "unknown", str(e)
+            want = (not exhausted) or order != "gt"
+            if kind != "return" or val is not want:
+                bad.append((exhausted, order, kind, val, want))
+    chk.check(not bad, R, mc, None, "a message may come exactly unless the topic is exhausted and the number lies beyond the last produced message" + (f"; for exhausted={bad[0][0]}, number {bad[0][1]} last: code gives {bad[0][3]!r}, specification {bad[0][4]}" if bad else ""),
+              site_text="PostOffice._message_may_come: decision table (2 x 3 cases)", site={"function": mc.qualname, "rule": "decision table"})
+    chk.exhaustive = True
+    # production: numbered consecutively, saved under the number, every spy receives it
+    ap = repo.func("PostOffice._ack_msg_produced", POST)
+    acfg = cfg_of(ap)
+    MSG, TP = ap.params[1], ap.params[2]
+    inc = [st for st in ap.node.body if isinstance(st, ast.AugAssign) and norm(st.target) == f"self._last_msg_produced[{TP}]" and isinstance(st.op, ast.Add) and norm(st.value) == "1"]
+    chk.check(len(inc) == 1, R, ap, None, "a produced message does not advance the topic's message number by exactly one (unconditionally)", site_text="PostOffice._ack_msg_produced: last produced += 1")
+    sv = [c for c in calls_in(ap.node) if norm(c.func) == f"self._saved_mail[{TP}].append"]
+    chk.check(len(sv) == 1 and norm(sv[0].args[0]) == f"(self._last_msg_produced[{TP}], {MSG})" and bool(inc) and stmt_of(sv[0]).lineno > inc[0].lineno, R, ap, stmt_of(sv[0]) if sv else None, "the message is not saved under its own (already advanced) number", site_text="PostOffice._ack_msg_produced: saved as (last produced, msg)")
+    sp = [st for st in ap.node.body if isinstance(st, ast.For) and norm(st.iter) == f"self._spies[{TP}]" and any(isinstance(x, ast.Expr) and isinstance(x.value, ast.Call) and norm(x.value.func) == f"{norm(st.target)}.receive" and norm(x.value.args[0]) == MSG for x in st.body)]
+    chk.check(len(sp) == 1, R, ap, None, "not every spy (saver) of the topic receives every produced message", site_text="PostOffice._ack_msg_produced: every spy receives the message")
+    ar = repo.func("PostOffice._ack_reader_recieved", POST)
+    keep = [n for n in walk_body(ar.node) if isinstance(n, ast.ListComp) and any(isinstance(g.iter, ast.Subscript) and norm(g.iter.value) == "self._saved_mail" for g in n.generators)]
+    okk = False
+    if len(keep) == 1 and len(keep[0].generators[0].ifs) == 1:
+        cond = keep[0].generators[0].ifs[0]
+        tgt = keep[0].generators[0].target
+        if isinstance(tgt, ast.Tuple):
+            b = pmatch(f"L_e < {norm(tgt.elts[0])}", cond)
+            if b:
+                d = [st for st in walk_body(ar.node) if isinstance(st, ast.Assign) and norm(st.targets[0]) == b["L_e"]]
+                okk = bool(d) and norm(d[0].value).startswith("min(self._last_msg_read[")
+    chk.check(okk, R, ar, None, "messages are dropped from the cache although some reader has not received them yet (keep: number > min over readers)", site_text="PostOffice._ack_reader_recieved: keep messages newer than the slowest reader")
+    st_ = [st for st in walk_body(ar.node) if isinstance(st, ast.Assign) and norm(st.targets[0]).startswith("self._last_msg_read[")]
+    chk.check(len(st_) == 1 and norm(st_[0].value) == ar.params[3], R, ar, None, "the reader's progress is not recorded as the acknowledged number", site_text="PostOffice._ack_reader_recieved: last read = msg_number")
+
 
 WITNESSES = [
+    W("reader stops one message early", "C01.R5", POST,
+      "return not (topic in self._exhausted_topics and msg_number > self._last_msg_produced[topic])", "return not (topic in self._exhausted_topics and msg_number >= self._last_msg_produced[topic])"),
+    W("cache lookup looks at the first entry only", "C01.R5", POST,
+      "for _msg_i, result in self._saved_mail[topic]:\n                if _msg_i == msg_number:\n                    break\n            else:",
+      "saved = self._saved_mail[topic]\n            if saved and saved[0][0] == msg_number:\n                result = saved[0][1]\n            else:"),
+    W("cache trimmed up to the fastest reader", "C01.R5", POST,
+      "everyone_got = min(self._last_msg_read[topic].values())", "everyone_got = max(self._last_msg_read[topic].values())"),
+    W("spies see only messages somebody reads", "C01.R5", POST,
+      "self._saved_mail[topic].append((self._last_msg_produced[topic], msg))\n\n        # Deliver the message to the spies (savers/monitors)\n        for spy in self._spies[topic]:\n            spy.receive(msg)",
+      "self._saved_mail[topic].append((self._last_msg_produced[topic], msg))\n\n            # Deliver the message to the spies (savers/monitors)\n            for spy in self._spies[topic]:\n                spy.receive(msg)"),
+    W("post office cursor starts at 1", "C01.R5", POST,
+      "msg_number = 0\n        while self._message_may_come(topic, msg_number):", "msg_number = 1\n        while self._message_may_come(topic, msg_number):"),
     W("edit the shared chunk in get_iter (the original defect)", "C01.R1", CONTEXT,
       "# Do not modify the chunk in place: savers may still hold it\n                    result = copy(result)\n", ""),
     W("SaverSpy edits the chunk it receives", "C01.R1", SINGLE,
